@@ -138,6 +138,19 @@ def head_possible(g: CFG, mod, at: ast.AST, subj: ast.AST, head_attr: str = "uri
     target = g.node_of(at, mod)
     if is_rest_value_lookup(subj):
         return []
+    # ... or the removal sits on the side of a comparison with the list node that excludes it:
+    # `if x == self.uri: <links only> else: remove((x, None, None))` / `if x != self.uri: remove(...)`
+    if depth == 0:
+        sx, head = norm(subj), "self.%s" % head_attr
+        for p_ in mod.parents(at):
+            if isinstance(p_, (ast.FunctionDef, ast.For, ast.While)):
+                break
+            if isinstance(p_, ast.If) and isinstance(p_.test, ast.Compare) and len(p_.test.ops) == 1 and {norm(p_.test.left), norm(p_.test.comparators[0])} == {sx, head}:
+                in_body = any(at is x for s_ in p_.body for x in ast.walk(s_))
+                rebound = any(isinstance(a, ast.Assign) and any(norm(t) == sx for t in a.targets) and a.lineno < getattr(at, "lineno", 0)
+                              for s_ in (p_.body if in_body else p_.orelse) for a in ast.walk(s_))
+                if not rebound and ((isinstance(p_.test.ops[0], ast.Eq) and not in_body) or (isinstance(p_.test.ops[0], ast.NotEq) and in_body)):
+                    return []
     if isinstance(subj, ast.Call) and isinstance(subj.func, ast.Attribute) and subj.func.attr == "_get_container" and len(subj.args) == 1 and not subj.keywords:
         k = subj.args[0]
         if isinstance(k, ast.Name):
